@@ -44,3 +44,7 @@ PENDING.pop("C19", None)
 _p("C10", "other",
    "Static necessary conditions of 'passes commute, are idempotent and keep circuits legal': in parse_jaqal_string each flag guards exactly the call of its pass on the running circuit value, override_dict is forwarded, and alias fill-in is dominated by let substitution (CFG); wherever a gate may expand to a macro body the rebuilding visitor splices same-kind child blocks (legal nesting); MapFiller visits every container that can hold qubit references and preserves every field the other passes consume (field-flow necessity). The elimination clauses behind idempotence are decided under C04.4, C05.1 and C09.2. Does not decide commutation up to meaning.")
 PENDING.pop("C10", None)
+
+_p("C07", "other",
+   "Static necessary conditions of lexical identifier resolution: memo-key completeness for the gate memo table of Builder (the key consults the context for every argument form through which construction consults it, including nested forms), precedence of macro parameters over the enclosing context in the merge used to build macro bodies (idiom table), and that re-linking of macro bodies returns the original node only under a 'changed' test and preserves every block/loop/macro field when it rebuilds (field-flow CTOR rule). Decides those clauses for all programs; does not decide equality of meaning for all placements.")
+PENDING.pop("C07", None)
